@@ -12,6 +12,7 @@ RULE = ("bounded-exhaustive enumeration: all ordered pairs over {0,+-EXH(L9)<=2 
         "MATRIX22_STRASSEN (pinned values from the tree's gmp-mparam.h) and densely under the run-time-threshold floor vector. Oracle: "
         "math.gcd, the manual's unique (s,t) definition, textbook Kronecker algorithm. distinct_nontrivial = distinct (function, "
         "configuration, size pair, family/sign class, result class) tuples.")
+RULE = RULE + (" " + 'Later additions: HGCD_REDUCE regime (2x and 3x the threshold) with a certificate oracle and all-ones/zero bands in equal-length operands with a planted factor; common factors whose low limb alone is 1 or 3.')
 ASSUMPTIONS = ["Python math.gcd / pow(x,-1,m) and the textbook Kronecker algorithm (self-tested in setup) are the reference model",
                "rop of a failed mpz_invert and moduli of absolute value <= 1 are outside the assertable domain"]
 BUDGET = {"quick": 420, "thorough": 3300}
